@@ -60,3 +60,34 @@ func init() {
 		},
 	}
 }
+
+func init() {
+	properties["C01"] = Property{
+		Level: "exploration",
+		Rule: "cases = (generated multi-package program from the feature library, garble configuration from {default, -tiny, -literals, -seed, combinations, GOGARBLE=module-only}, command build|run|test, 1-3 runtime argument vectors); oracle = differential against the regular toolchain on stdout, exit status, stderr and test verdicts. Non-trivial = at least two packages and at least one feature used across a package boundary; distinct = (feature set, configuration class, command).",
+		Assumptions: commonAssumptions,
+		ReplayUnit:  "TestC01Replay",
+		Units: []Unit{
+			{Name: "TestC01", Kind: "e2e", Checks: [2]int{10, 60}, Workers: [2]int{3, 8}},
+		},
+	}
+}
+
+func init() {
+	properties["C20"] = Property{
+		Level: "exploration",
+		Rule: "cases = argument vectors (0-6 flags drawn from every flag documented by `go help build|testflag|test|run`, in -f, -f v, -f=v and --f forms, with values that look like flags, paths or garble flags, followed by 0-3 package/file arguments) compared with a reference splitter built at run time from the go command's help text; plus argv observed at a stub go command for whole garble invocations. Non-trivial = a boolean flag directly followed by a non-flag argument and a value-taking flag in separated form; distinct = (flag form kinds, flag count, argument count).",
+		Assumptions: []string{
+			"the go command's help text is the specification of which flags take a value (-o is added from the prose of `go help build`)",
+			"flags after the first package argument are outside the generated domain except as opaque package arguments",
+			"-args is excluded as in the statement",
+		},
+		ReplayUnit: "TestVerifC20Replay",
+		Units: []Unit{
+			{Name: "TestVerifC20Split", Kind: "inproc", Pkg: ".", Checks: [2]int{100000, 1500000}, Workers: [2]int{1, 4}},
+			{Name: "TestVerifC20FlagValue", Kind: "inproc", Pkg: ".", Checks: [2]int{20000, 300000}, Workers: [2]int{1, 2}},
+			{Name: "TestC20Stub", Kind: "e2e", Checks: [2]int{300, 2500}, Workers: [2]int{1, 2}, Shrink: "30s"},
+			{Name: "FuzzVerifC20", Kind: "fuzz", Pkg: ".", Fuzz: true, FuzzTime: "60s", ThoroughOnly: true},
+		},
+	}
+}
